@@ -42,6 +42,8 @@ type Stats struct {
 	RerunAlone    int64 // given up in the pool, judged by the isolated re-run that finished
 	Restarts      int64
 	Skipped       int64 // jobs not run because the watchdog budget was used up
+	MaxRSS        int64 // largest resident set of a worker seen while a job was in flight (bytes)
+	MemCapFired   int64 // jobs given up in the pool because the worker grew beyond its share of the machine's memory
 
 	mu      sync.Mutex
 	Firings []string // job id and reason of every watchdog firing (for the inconclusive message)
@@ -59,6 +61,66 @@ type Pool struct {
 	opt   Options
 	Stats Stats
 	seq   int64
+}
+
+// Memory. Every worker runs under RLIMIT_AS of 8 GiB (a backstop; not for race-detector binaries). Sixteen workers that all
+// grow to that size need more than the machine has, and the kernel's OOM killer then picks processes by its own rules - the
+// driver among them. So the pool watches the resident set of every worker (10 times a second) and gives a job up when its
+// worker has grown beyond its share: 60 % of the machine's memory divided by the number of workers. The job is then run alone,
+// one such job at a time, with room up to aloneRSS; only if it does not fit there either is it reported (out-of-memory).
+var (
+	memTotal = func() int64 {
+		b, _ := os.ReadFile("/proc/meminfo")
+		for _, l := range strings.Split(string(b), "\n") {
+			if strings.HasPrefix(l, "MemTotal:") {
+				f := strings.Fields(l)
+				if len(f) >= 2 {
+					if kb, err := strconv.ParseInt(f[1], 10, 64); err == nil {
+						return kb << 10
+					}
+				}
+			}
+		}
+		return 64 << 30
+	}()
+	aloneRSS = func() int64 {
+		v := memTotal / 5
+		if v > 8<<30 {
+			v = 8 << 30
+		}
+		return v
+	}()
+	aloneMu  sync.Mutex
+	pageSize = int64(os.Getpagesize())
+)
+
+func (p *Pool) shareRSS() int64 {
+	v := memTotal * 6 / 10 / int64(p.opt.Workers)
+	if v > 8<<30 {
+		v = 8 << 30
+	}
+	if v < 1<<30 {
+		v = 1 << 30
+	}
+	return v
+}
+
+func procRSS(pid int) int64 {
+	b, err := os.ReadFile(fmt.Sprintf("/proc/%d/statm", pid))
+	if err != nil {
+		return 0
+	}
+	f := strings.Fields(string(b))
+	if len(f) < 2 {
+		return 0
+	}
+	n, _ := strconv.ParseInt(f[1], 10, 64)
+	return n * pageSize
+}
+
+func init() {
+	// best effort: the driver should be the last process the OOM killer looks at (lowering needs a capability)
+	_ = os.WriteFile("/proc/self/oom_score_adj", []byte("-500"), 0o644)
 }
 
 func New(opt Options) *Pool {
@@ -124,6 +186,7 @@ func (p *Pool) start() (*worker, error) {
 		return nil, err
 	}
 	ef.Close()
+	_ = os.WriteFile(fmt.Sprintf("/proc/%d/oom_score_adj", cmd.Process.Pid), []byte("800"), 0o644)
 	w.in, w.out = in, bufio.NewReaderSize(out, 1<<20)
 	atomic.AddInt64(&p.Stats.Restarts, 1)
 	return w, nil
@@ -230,7 +293,7 @@ func procCPU(pid int, deep bool) (cpu time.Duration, busy bool, ok bool) {
 //   - reaches the wall-clock cap (why = "wall-cap"; inconclusive by itself).
 //
 // CPU time and thread states do not depend on how busy the machine is; wall-clock time alone never decides.
-func (w *worker) exec1(job *proto.Job, budget, idleWall, hardCap time.Duration) (res *proto.Result, err error, timedOut bool, why string) {
+func (w *worker) exec1(job *proto.Job, budget, idleWall, hardCap time.Duration, rssCap int64, maxRSS *int64) (res *proto.Result, err error, timedOut bool, why string) {
 	data, err := json.Marshal(job)
 	if err != nil {
 		return nil, err, false, ""
@@ -260,8 +323,21 @@ func (w *worker) exec1(job *proto.Job, budget, idleWall, hardCap time.Duration) 
 	lastCPU, lastProgress := cpu0, t0
 	tick := time.NewTicker(500 * time.Millisecond)
 	defer tick.Stop()
+	memTick := time.NewTicker(100 * time.Millisecond)
+	defer memTick.Stop()
 	for {
 		select {
+		case <-memTick.C:
+			rss := procRSS(pid)
+			for {
+				old := atomic.LoadInt64(maxRSS)
+				if rss <= old || atomic.CompareAndSwapInt64(maxRSS, old, rss) {
+					break
+				}
+			}
+			if rssCap > 0 && rss > rssCap {
+				return nil, nil, true, "memory-share"
+			}
 		case r := <-ch:
 			if d := time.Since(t0); slowLog > 0 && d > slowLog {
 				c1, _, _ := procCPU(pid, false)
@@ -413,8 +489,52 @@ func (p *Pool) Run(jobs <-chan *proto.Job, handle func(*proto.Job, *proto.Result
 					}
 				}
 				atomic.AddInt64(&p.Stats.Jobs, 1)
-				res, err, timedOut, why := w.exec1(job, p.opt.Watchdog, p.opt.IdleWall, p.opt.HardCap)
+				res, err, timedOut, why := w.exec1(job, p.opt.Watchdog, p.opt.IdleWall, p.opt.HardCap, p.shareRSS(), &p.Stats.MaxRSS)
 				switch {
+				case timedOut && why == "memory-share":
+					// the worker outgrew its share of the memory: the job is run alone, one such job at a time
+					atomic.AddInt64(&p.Stats.MemCapFired, 1)
+					_, _ = w.reap(syscall.SIGKILL)
+					w = nil
+					aloneMu.Lock()
+					iw, serr := p.start()
+					if serr != nil {
+						aloneMu.Unlock()
+						errCh <- serr
+						return
+					}
+					r2, err2, to2, why2 := iw.exec1(job, p.opt.Isolated, p.opt.IdleWall, p.opt.HardCap, aloneRSS, &p.Stats.MaxRSS)
+					switch {
+					case to2 && why2 == "memory-share":
+						_, _ = iw.reap(syscall.SIGKILL)
+						atomic.AddInt64(&p.Stats.WorkerDeaths, 1)
+						res = &proto.Result{ID: job.ID, Fatal: &proto.FatalInfo{Kind: "out-of-memory", Stderr: fmt.Sprintf("the worker grew beyond %d MiB while this job was in flight (alone in a fresh process)", aloneRSS>>20)}}
+					case to2 && why2 == "wall-cap":
+						iw.kill()
+						atomic.AddInt64(&p.Stats.WatchdogFired, 1)
+						atomic.AddInt64(&p.Stats.Inconclusive, 1)
+						p.Stats.noteFiring(job.ID + ": memory-share, alone: wall-cap")
+						res = &proto.Result{ID: job.ID, WorkerErr: "the job reached the wall-clock cap without exhausting its CPU budget (machine too busy?)"}
+					case to2:
+						atomic.AddInt64(&p.Stats.WatchdogFired, 1)
+						d2, _ := iw.reap(syscall.SIGQUIT)
+						res = &proto.Result{ID: job.ID, Fatal: &proto.FatalInfo{Kind: "hang", Stderr: "given up: " + why2 + "\n" + truncS(d2, 3000)}}
+						if m := reFrame.FindStringSubmatch(d2); m != nil {
+							res.Fatal.Func = strings.TrimPrefix(strings.TrimPrefix(m[1], "github.com/jsightapi/"), "jsight-api-core/")
+						}
+					case err2 != nil:
+						st, werr := iw.reap(0)
+						atomic.AddInt64(&p.Stats.WorkerDeaths, 1)
+						res = &proto.Result{ID: job.ID, Fatal: classifyDeath(st, werr)}
+					default:
+						if atomic.AddInt64(&p.Stats.RerunAlone, 1) > 200 {
+							atomic.AddInt64(&p.Stats.WatchdogFired, 1)
+						}
+						p.Stats.noteFiring(fmt.Sprintf("%s: beyond its share of the memory (%d MiB), finished alone in %.1f CPU-s", job.ID, p.shareRSS()>>20, iw.lastJobCPU.Seconds()))
+						res = r2
+						iw.kill()
+					}
+					aloneMu.Unlock()
 				case timedOut:
 					dump, _ := w.reap(syscall.SIGQUIT)
 					w = nil
@@ -428,7 +548,7 @@ func (p *Pool) Run(jobs <-chan *proto.Job, handle func(*proto.Job, *proto.Result
 						errCh <- serr
 						return
 					}
-					r2, err2, to2, why2 := iw.exec1(job, p.opt.Isolated, p.opt.IdleWall, p.opt.HardCap)
+					r2, err2, to2, why2 := iw.exec1(job, p.opt.Isolated, p.opt.IdleWall, p.opt.HardCap, 0, &p.Stats.MaxRSS)
 					switch {
 					case to2 && why2 == "wall-cap":
 						// neither out of CPU budget nor blocked, just not finished within the cap: no verdict
